@@ -38,6 +38,23 @@ def special(arg):
                 rec('fit#post.values_orders_well_formed', not errs, '%s: %s (order %r)' % (name, '; '.join(errs), dict(o.values_orders['o'].content)), w)
                 t = outcome(lambda: o.transform(X))
                 rec('transform#post.training_rows_accepted', t[0] == 'ok', '%s: transform of the training data: %s' % (name, t[0]), w)
+    elif which == 'int_ranking':
+        # an ordinal feature stored as integer codes whose ranking is given as NUMBERS (not as their string forms)
+        from AutoCarver.discretizers import GroupedList, Discretizer, QualitativeDiscretizer
+        k = rng.choice([3, 4, 5]); codes = list(range(k)); rng.shuffle(codes); col = [rng.choice(codes) for _ in range(n)]
+        X = pd.DataFrame({'o': pd.Series(col, dtype=object), 'q': [round(rng.random() * 5, 1) for _ in range(n)]}); rk = {c: i for i, c in enumerate(codes)}
+        y = pd.Series([int(rng.random() < 0.15 + 0.2 * rk[c]) for c in col])
+        wit = dict(which=which, ranking=codes, column=col)
+        for name, mk in (('QualitativeDiscretizer', lambda: QualitativeDiscretizer(qualitative_features=[], ordinal_features=['o'], values_orders={'o': GroupedList(list(codes))}, min_freq=0.05, copy=True)),
+                         ('Discretizer', lambda: Discretizer(quantitative_features=['q'], qualitative_features=[], ordinal_features=['o'], values_orders={'o': GroupedList(list(codes))}, min_freq=0.05, copy=True))):
+            w = dict(wit, kind=name)
+            try: o = mk(); o.fit(X, y)
+            except AssertionError: continue
+            except Exception as e:
+                rec('fit#raises.only_AssertionError', False, '%s.fit raised %s: %s' % (name, type(e).__name__, str(e)[:200]), w); continue
+            if 'o' in o.features:
+                errs = wf_order(o.values_orders['o'])
+                rec('fit#post.values_orders_well_formed', not errs, '%s: %s (order %r)' % (name, '; '.join(errs), dict(o.values_orders['o'].content)), w)
     elif which == 'pregrouped_default':
         # a categorical feature handed over with a PRE-GROUPED order in which the default marker already leads a group (a previous discretization), and a NEW rare value
         from AutoCarver.discretizers import GroupedList, Discretizer, QualitativeDiscretizer
@@ -91,6 +108,6 @@ def run(ctx):
     battery.run_battery(ctx, {'C08'}, kinds=ALL)
     n = 20 if ctx.tier == 'quick' else 200
     ctx.bound('special inputs', '%d pre-grouped ordinal rankings holding the missing-value marker (3 classes) and %d ChainedDiscretizer frames with dropped features' % (n, n))
-    for recs in zoo.pmap(special, [(w, ctx.seed * 53 + i) for i in range(n) for w in ('pregrouped', 'pregrouped_default', 'chained')]):
+    for recs in zoo.pmap(special, [(w, ctx.seed * 53 + i) for i in range(n) for w in ('pregrouped', 'pregrouped_default', 'chained')] + [('int_ranking', ctx.seed * 53 + i) for i in range(max(4, n // 5))]):
         for clause, ok, wit, msg in recs:
             if clause.startswith('C08:'): ctx.check(clause[4:], clause[4:].split('#')[0], ok, wit, msg)
